@@ -213,6 +213,13 @@ async def session(ctx, case):
                                                                                f"BLOB object was refilled and uploaded again", case)
                     return False
         else:
+            if n % 3 == 1:
+                # before the frame is published the driver withdraws its (unrelated) text property and offers it again
+                tv = D.vector_of(drv, "g", "t")
+                tv.enabled = False
+                tv.enabled = True
+                await sess.quiesce()
+                ctx.count("other_property_withdrawn_and_offered_again_before_a_publication")
             mark = {l: len(l.s_writer.data) for l in links}
             frame = values.BLOB(data, fmt)
             el.value = frame
